@@ -41,22 +41,40 @@ theorem LInv_cutLinks {cfgA cfgB : Cfg} {l : LSt} (h : LInv cfgA cfgB l) : LInv 
 
 def appMsg (n : Int) (p : String) : OutMsg := { kind := "D", seq := n, f := [(9000, p)] }
 
+/-- the application message as `prepMessageForSend` stores and queues it: numbered, header filled (tag 369 when the
+    option is on) -/
+def appMsgS (s : Sess) (p : String) : OutMsg := { stamp s (appMsg 0 p) with seq := s.store.sender }
+
+theorem appMsgS_view (s : Sess) (p : String) :
+    (appMsgS s p).kind = "D" ∧ (appMsgS s p).f = [(9000, p)] ∧ (appMsgS s p).seq = s.store.sender := ⟨rfl, rfl, rfl⟩
+
 /-- the engine after accepting an application message with payload `p` -/
 def sentSess (s : Sess) (p : String) : Sess :=
   { s with
-    store := { s.store with msgs := (s.store.sender, appMsg s.store.sender p) :: s.store.msgs, sender := s.store.sender + 1 },
-    toSend := s.toSend ++ [appMsg s.store.sender p],
+    store := { s.store with msgs := (s.store.sender, appMsgS s p) :: s.store.msgs, sender := s.store.sender + 1 },
+    toSend := s.toSend ++ [appMsgS s p],
     log := [] }
 
 theorem step_send (s : Sess) (p : String) (hp : s.cfg.persist = true) :
     step s (.send (appMsg 0 p)) = (sentSess s p, [Obs.saved s.store.sender "D" true], "ok") := by
   have hadm : isAdminKind "D" = false := by decide
   have h9002 : (Fields.get? [(9000, p)] 9002 == some "dns") = false := by simp [get?_cons, get?_nil]
-  have hres : ∀ n : Int, resendable { kind := "D", seq := n, f := [(9000, p)] } = true := by
-    intro n; simp [resendable, get?_cons, get?_nil]
-  simp only [step, stepCore, prep, appMsg, hadm, h9002, Bool.false_eq_true, if_false]
+  have hres : resendable (appMsgS s p) = true := by
+    simp [resendable, appMsgS, appMsg, get?_cons, get?_nil]
+  have hadm' : isAdminKind (stamp s.clearLog (appMsg 0 p)).kind = false := hadm
+  have h9002' : ((stamp s.clearLog (appMsg 0 p)).f.get? 9002 == some "dns") = false := h9002
+  have hst : ({ stamp s.clearLog (appMsg 0 p) with seq := s.clearLog.store.sender } : OutMsg) = appMsgS s p := rfl
+  simp only [step, stepCore, prep, prepCore, hadm', h9002', Bool.false_eq_true, if_false, hst]
   rw [persistOut_eq _ _ _ (show s.clearLog.cfg.persist = true from hp)]
-  simp [Sess.clearLog, Sess.emit, Sess.setToSend, sentSess, appMsg, hres]
+  have hk : (appMsgS s p).kind = "D" := rfl
+  simp [Sess.clearLog, Sess.emit, Sess.setToSend, sentSess, hres, hk]
+
+theorem msgOK_appS (s : Sess) (p : String) (hp : p ≠ "") : MsgOK (appMsgS s p) := by
+  refine ⟨?_, (show "D" ≠ "" by decide), (show "D" ≠ "4" by decide), fun _ => ⟨p, rfl⟩, fun h => absurd (show "D" = "2" from h) (by decide)⟩
+  intro q hq
+  have : q ∈ [(9000, p)] := hq
+  simp only [List.mem_singleton] at this; subst this
+  exact ⟨hp, by simp, by simp, fun h => absurd (show isAdminKind "D" = true from h) (by decide)⟩
 
 theorem msgOK_app (p : String) (n : Int) (hp : p ≠ "") : MsgOK (appMsg n p) := by
   refine ⟨?_, (show "D" ≠ "" by decide), (show "D" ≠ "4" by decide), fun _ => ⟨p, rfl⟩, fun h => absurd (show "D" = "2" from h) (by decide)⟩
@@ -69,7 +87,7 @@ theorem halves_send {x y : Sess} {x2y y2x : List OutMsg} {sentX sentY dlvX dlvY 
     (hxy : Half x y x2y sentX dlvY rcvY) (hyx : Half y x y2x sentY dlvX rcvX) (p : String) (hp : p ≠ "") :
     Half (sentSess x p) y x2y (sentX ++ [p]) dlvY rcvY ∧ Half y (sentSess x p) y2x sentY dlvX rcvX := by
   have hg : Grow false x.store (sentSess x p).store := Grow.save false x.store _ (fun h => by cases h)
-  refine ⟨⟨hxy.sok.save _ (msgOK_app p _ hp) rfl, ?_, fun m hm => (hxy.fl m hm).mono hg, hxy.t1, ?_, ?_, ?_, ?_⟩,
+  refine ⟨⟨hxy.sok.save _ (msgOK_appS x p hp) rfl, ?_, fun m hm => (hxy.fl m hm).mono hg, hxy.t1, ?_, ?_, ?_, ?_⟩,
     ⟨hyx.sok, hyx.q, hyx.fl, hyx.t1, hyx.t2, hyx.dlv, hyx.sent, ⟨hyx.pool.1, hyx.pool.2⟩⟩⟩
   · intro m hm
     simp only [sentSess, List.mem_append, List.mem_singleton] at hm
@@ -78,7 +96,7 @@ theorem halves_send {x y : Sess} {x2y y2x : List OutMsg} {sentX sentY dlvX dlvY 
     · rw [hm]; exact .stored List.mem_cons_self
   · have := hxy.t2; simp only [sentSess]; omega
   · rw [hg.below _ hxy.t2]; exact hxy.dlv
-  · simp only [sentSess, appPay, pay, appMsg]
+  · simp only [sentSess, appPay, pay, (appMsgS_view x p).1, (appMsgS_view x p).2.1]
     rw [← hxy.sent]
     simp [get?_cons, show isAdminKind "D" = false by decide]
   · exact poolInv_mono (fun im h => poolP_mono (y := y) (x := x) (x' := sentSess x p) (d := dlvY) (d' := dlvY) rfl hg h) hxy.pool
